@@ -37,7 +37,7 @@ All twenty properties are claimed in `MANIFEST.json`; `not_applicable` is empty.
 | C06 | Cache | `read_pure`, `results_disjoint`, `mutation_local`, `other_calls_preserve`, `pose_independent_of_cache` | md5 idealised injective |
 | C07 | Prog (`Rel`/`Blind`/`SkipFree`), Stream | `truncated_rejected`, `truncated_rejected_stream_full`, `trailing_ignored(_any)`, `truncated_window_stream(_slice)` (via `Proofs/StreamRev.sr_agree`), `truncated_window_stream_complete`, `truncated_window_stream_any_cache`, `cache_stays_ok` (every cache state, and "raises when the intact read raises": `Proofs/StreamWarm.lean`) | — |
 | C08 | PoseOps | `backends_agree`, `convert_eq`, `missing_all_dims_iff_conf_zero`, `getPoints/selectFrames/sliceStep_agree`, `matmul_point_view` | torch / tf primitives |
-| C09 | PoseOps, Spatial, Interp, Normalize | `visEq_view`, `zeroFilled_exact`, `…_ni` for nine operations, `run_ni`, `program_noninterference`; `Props/C09Norm`: `normalize_ni`, `normalizeDistribution_ni`, `runN_ni`; `Props/C09Repr`: `rep2_ni`, `rep3_ni`, `pointsRepRows_ni`, `forward_ni` (the assembled representation) | 3-D normaliser (K4), splines, augmentation, serialisation: two-run execution |
+| C09 | PoseOps, Spatial, Interp, Normalize | `visEq_view`, `zeroFilled_exact`, `…_ni` for nine operations, `run_ni`, `program_noninterference`; `Props/C09Norm`: `normalize_ni`, `normalizeDistribution_ni`, `runN_ni`; `Props/C09Repr`: `rep2_ni`, `rep3_ni`, `pointsRepRows_ni`, `forward_ni` (the assembled representation); `Props/C09Ser`: `serialise_ni` (write → read) | 3-D normaliser (K4), spline interpolants: two-run execution |
 | C10 | Tensor, Masked | `run_refines`, `shapes_identical`, `elementwise_valid_iff`, `strict_sum_valid_iff`, `mean_valid_iff`, `zero_filled_exact` | — |
 | C11 | Select | `select_component(_all)`, `pointIndex_go`, `remove_eq_select_complement`, `remove_points_eq_select`, `select_limbs_names`; helpers (`Model/Helpers`): `hidePoints_other`, `hidePoints_hidden`, `mem_namedIndexes`, `correctWrist_other`, `correctWrist_at` | the name tables of the known formats |
 | C12 | PoseSeq (+ all body models) | `step_inv`, `run_inv`, `wf_pointwise`, `fits_of_inv`, `serialisable`, `normalize_is_transform`, `normalizeDistribution_is_transform`, `unnormalizeDistribution_is_transform`, `normalize_wf` … | dropouts' draws, torch / tf bodies |
